@@ -5,7 +5,7 @@
    Json/Data.v (Spec and Impl data). *)
 From Verif Require Import Json.Model Json.Cue Json.Data Json.Utf8Proofs Json.StringProofs Json.NumProofs
   Json.RoundTrip Json.CueStrProofs Json.CueNumProofs Json.FormatProofs Json.DataProofs Json.Reject
-  Json.Refine Json.WfProofs Json.Examples.
+  Json.Refine Json.WfProofs Json.CueStrConverse Json.Examples.
 
 (* ------------------------------------------------------------ round trip ---- *)
 (* ALL well-formed values: any nesting, repeated and empty member names, every string of
@@ -58,6 +58,13 @@ Print Assumptions C10_json_string_is_cue_string.
 Theorem C10_strict_refines_std : forall t v, json_unescape_gen Strict t = Some v -> json_unescape t = Some v.
 Proof. exact strict_refines_std. Qed.
 Print Assumptions C10_strict_refines_std.
+
+(* conversely: among valid JSON string literals Unquote refuses exactly those the strict reader
+   refuses (an unpaired surrogate escape) *)
+Theorem C10_cue_unquote_rejects_lone : forall t v,
+  json_unescape t = Some v -> json_unescape_gen Strict t = None -> cue_unquote t = UErr.
+Proof. exact cue_unquote_rejects_lone. Qed.
+Print Assumptions C10_cue_unquote_rejects_lone.
 
 (* F6 *)
 Theorem C10_lone_surrogate_refuted : exists t, json_unescape t = Some [0xFFFD] /\ cue_unquote t = UErr.
